@@ -226,7 +226,7 @@ let () =
        | None -> ()
        | Some (o, sh) ->
          let cur = match !m, o with
-           | _, Machine.ONew _ | _, Machine.OElf _ -> Some { Machine.st = Machine.empty_state; henv = [] }
+           | _, Machine.ONew _ | _, Machine.OElf _ -> Some { Machine.st = State.empty_state; henv = [] }
            | Some mm, _ -> Some mm
            | None, _ -> None in
          (match cur with
